@@ -133,7 +133,7 @@ CHECKS = {
                 'tiny compression blocks, shuffled listings, junk files, path spellings, file lists in any order.',
         'design_ref': 'DESIGN.md 4 (C01), 2.3',
         'note': 'no threads involved: the simulator owns storage and the allocator; worlds <= 4 slabs x 6 halos x 8 particles; '
-                'light-cone layout not yet covered',
+                '',
     },
     'C02': {
         'engine': 'E2-world',
